@@ -452,6 +452,18 @@ func (s *server) forget(addr string, rec *connRec) {
 	s.mu.Unlock()
 }
 
+func (s *server) openAllGates() {
+	s.mu.Lock()
+	recs := make([]*connRec, 0, len(s.byID))
+	for _, r := range s.byID {
+		recs = append(recs, r)
+	}
+	s.mu.Unlock()
+	for _, r := range recs {
+		r.openGate()
+	}
+}
+
 func (s *server) recByID(id int) *connRec {
 	s.mu.Lock()
 	defer s.mu.Unlock()
